@@ -35,14 +35,21 @@ func NewOracle() *Oracle {
 	return &Oracle{Floats: map[int64]string{}, Times: map[[2]int64]string{}, Dates: map[int64]string{}}
 }
 
-// Scaled returns f*128 as an integer; ok=false when f is not an exact multiple of 1/128
-// in the range where strconv prints it without an exponent.
-func Scaled(f float64) (int64, bool) {
-	s := f * 128
-	if math.IsNaN(s) || math.IsInf(s, 0) || s != math.Trunc(s) || math.Abs(f) >= 100000 {
+// FloatKey is the exact integer under which a float64 travels to Coq (VFloat q / AFloat q):
+// the IEEE-754 magnitude bits with the sign in front, so the key is injective on finite floats
+// up to the sign of zero (both zeros have key 0, as Go's v == 0).  The model only needs
+// equality and "is zero" on floats; their text is looked up in the oracle table.  Every finite
+// float64 is transportable (wave 6: values with more than 7 significant decimals, 1/3, 1e-9,
+// tile bounds); ok=false for NaN and infinities, which are outside the property's domain.
+func FloatKey(f float64) (int64, bool) {
+	if math.IsNaN(f) || math.IsInf(f, 0) {
 		return 0, false
 	}
-	return int64(s), true
+	m := int64(math.Float64bits(f) &^ (1 << 63))
+	if math.Signbit(f) {
+		return -m, true
+	}
+	return m, true
 }
 
 // Emit appends the positional representation of v (Value.v) to c and feeds the oracle.
@@ -64,9 +71,9 @@ func Emit(c *wire.Case, v reflect.Value, o *Oracle) {
 	case reflect.Int, reflect.Int8, reflect.Int16, reflect.Int32, reflect.Int64:
 		c.Int(v.Int())
 	case reflect.Float64, reflect.Float32:
-		k, ok := Scaled(v.Float())
+		k, ok := FloatKey(v.Float())
 		if !ok {
-			panic(fmt.Sprintf("xcodec: float %v is not a small multiple of 1/128", v.Float()))
+			panic(fmt.Sprintf("xcodec: float %v is not finite", v.Float()))
 		}
 		c.Int(k)
 		if o != nil {
